@@ -42,8 +42,9 @@ def run(rep, ctx):
         borrow(rep, c10.r1_one_impl, ctx, "C10.R1", "C09.R6")
         borrow(rep, c10.r6_passthrough, ctx, "C10.R6", "C09.R6")
         borrow(rep, c04.r2_op_table, ctx, "C04.R2", "C09.R6")
-        from . import c03
-        borrow(rep, c03.r1_value_ops, ctx, "C03.R1", "C09.R6")  # x + k, x - k of Arrays: Sum / Subtract apply a + b / a - b to the operands as given
+        from . import c03, c05
+        borrow(rep, c03.r1_value_ops, ctx, "C03.R1", "C09.R6")
+        borrow(rep, c05.r1_same_quantity, ctx, "C05.R1", "C09.R6")  # k + x, k - x: the result quantity comes from the operands, each in its own role  # x + k, x - k of Arrays: Sum / Subtract apply a + b / a - b to the operands as given
     except AnalysisError as e:
         rep.error("C09.R6", str(e))
     rep.not_decided += [
